@@ -197,14 +197,11 @@ Lemma sc_gen : forall n pre0 s,
   c07_keys_leaf n = true ->
   incl (pre0 ++ s ++ anc_occs n) U ->
   closed_or_above pre0 n ->
-  merged_closed mt n (pre0 ++ s) = true ->
   shared_closed mt o n (pre0 ++ s) = true.
 Proof.
-  induction n as [i v|i kvs IH|i els IH|i els IH] using node_ind'; intros pre0 s Hs K Hi Hc M; try reflexivity.
+  induction n as [i v|i kvs IH|i els IH|i els IH] using node_ind'; intros pre0 s Hs K Hi Hc; try reflexivity.
   - (* mapping *)
-    simpl. simpl in M. apply all_at_intro. intros pos [k v] Hn. simpl.
-    pose proof (all_at_spec _ _ _ _ _ M pos (k, v) Hn) as Mj. simpl in Mj.
-    apply andb_true_iff in Mj. destruct Mj as [Mm Mv].
+    simpl. apply all_at_intro. intros pos [k v] Hn. simpl.
     pose proof (nth_error_In _ _ Hn) as Hin.
     destruct (keys_leaf_map _ _ K k v Hin) as [Lk Kv].
     set (pre_kv := (pre0 ++ s) ++ flat_map entry_occs (firstn pos kvs)) in *.
@@ -240,8 +237,7 @@ Proof.
             -- apply in_self_occ in Hy. subst y. apply Sub; auto.
             -- apply Sub. apply (anc_occs_trans v' Kv' y Hy). exact Hz.
       - left. apply in_self_occ in Hy. subst y. rewrite (anc_occs_leaf _ Lk). intros z []. }
-    destruct (skip_merged mt o (oid i) pos) eqn:Sk.
-    { unfold skip_merged in Sk. apply andb_true_iff in Sk. destruct Sk as [Sk _]. rewrite Sk in Mm. exact Mm. }
+    destruct (skip_merged mt o (oid i) pos); [reflexivity|].
     destruct (negb (o_kalias o) && is_repeat pre_kv k); [reflexivity|].
     destruct (negb (o_valias o) && is_repeat (pre_kv ++ self_occ k) v) eqn:Rv.
     + apply andb_true_iff in Rv. destruct Rv as [_ Rv].
@@ -259,8 +255,7 @@ Proof.
         rewrite app_assoc. apply in_or_app. right. apply Ikv. unfold entry_occs. simpl.
         apply in_or_app. right. exact Hz.
   - (* sequence *)
-    simpl. simpl in M. apply all_at_intro. intros idx e Hn. simpl.
-    pose proof (all_at_spec _ _ _ _ _ M idx e Hn) as Mj. simpl in Mj.
+    simpl. apply all_at_intro. intros idx e Hn. simpl.
     pose proof (nth_error_In _ _ Hn) as Hin.
     pose proof (keys_leaf_seq _ _ K e Hin) as Ke.
     set (pre_e := (pre0 ++ s) ++ flat_map elem_occs (firstn idx els)) in *.
@@ -304,11 +299,11 @@ Proof.
 Qed.
 End Closed.
 
-Theorem doc_wf_shared_closed : forall mt d, doc_wf mt d = true ->
+Theorem doc_wf_shared_closed : forall mt d, doc_wf d = true ->
   forall o, shared_closed mt o d [] = true.
 Proof.
   intros mt d H o. unfold doc_wf in H.
-  apply andb_true_iff in H. destruct H as [H H3]. apply andb_true_iff in H. destruct H as [H1 H2].
+  apply andb_true_iff in H. destruct H as [H1 H2].
   apply (sc_gen mt o (all_occs d) (same_oid_same_tree_spec d H1) d [] []); auto.
   - intros y [].
   - simpl. intros z Hz. unfold all_occs. apply in_or_app. right. exact Hz.
